@@ -267,8 +267,8 @@ fn record(st: &mut Stats, sigs: Sigs, buf: &[u8], t: &TrackerCtx, recent: &[Vec<
 
 pub fn run_c01(ctx: &Ctx) -> ! {
     start_watchdog(20_000);
-    let nrandom = ctx.tier.pick(2_000_000u64, 40_000_000);
-    let nstruct = ctx.tier.pick(1_500_000u64, 40_000_000);
+    let nrandom = ctx.tier.pick(2_000_000u64, 150_000_000);
+    let nstruct = ctx.tier.pick(1_500_000u64, 150_000_000);
     let npool = ctx.tier.pick(220usize, 900);
     let mut st = parallel(|w, st| {
         let mut rng = ctx.rng(1, w as u64);
